@@ -140,3 +140,23 @@ Print Assumptions C07_failure_atomic.
 Theorem C07_order_nonvacuous :
   In EOpenWrite doctrans_order /\ In (ECall (s2l "doctransify_cst")) doctrans_order /\ In (ECall (s2l "cst_parse")) doctrans_order.
 Proof. repeat split; vm_compute; tauto. Qed.
+
+(* ---- how a header comes to be re-printed at all: doctrans takes the header text out of the file, makes it parsable with
+   cst_utils.reindent_block_with_pass_body (Model/Reindent.v, compared with the code on generated headers each run) and compares the
+   parsed arguments with the ones it computed.  For EVERY one-line header without a run of four blanks, whatever its indentation, the
+   text that is parsed is the header itself plus " pass" -- so its arguments compare equal and it is left alone.  A header WITH four
+   blanks in a row (a string default such as '    ') is changed by the helper: the recorded finding
+   "header-reprint-.../positional-annotations-unchanged". *)
+From CDD Require Reindent ReindentProofs RestDocIndentProofs.
+Theorem C07_header_untouched_by_reindent : forall ind h : str,
+  RestDocProofs.blank ind = true -> RestDocIndentProofs.one_line ind = true -> RestDocIndentProofs.one_line h = true ->
+  RestDocProofs.head_ok h = true -> contains Reindent.TAB4 h = false ->
+  Reindent.reindent_block_with_pass_body (ind ++ h) = h ++ Reindent.PASS.
+Proof. exact ReindentProofs.header_untouched. Qed.
+Print Assumptions C07_header_untouched_by_reindent.
+Example C07_reindent_refuted :
+  Reindent.reindent_block_with_pass_body (s2l "    def f(a, indent='    '):") = s2l "def f(a, indent=''): pass".
+Proof. exact ReindentProofs.header_with_four_blanks_refuted. Qed.
+Example C07_reindent_example :
+  Reindent.reindent_block_with_pass_body (s2l "    def f(a: int = 5, *rest, sep=',  '):") = s2l "def f(a: int = 5, *rest, sep=',  '): pass".
+Proof. exact ReindentProofs.header_example. Qed.
